@@ -1931,7 +1931,8 @@ def _determine_fits(x, num_x, total_points, delta):
 
     if skip_start:  # fit second to last x-value
         fits[total_fits] = num_x - 2
-        if x[-1] - x[-2] < x[-2] - x[num_x - total_points]:
+        # if the window spans all points, it cannot be shifted to the left
+        if num_x == total_points or x[-1] - x[-2] < x[-2] - x[num_x - total_points]:
             windows[total_fits] = (num_x - total_points, num_x)
         else:
             windows[total_fits] = (num_x - total_points - 1, num_x - 1)
